@@ -78,7 +78,7 @@ def expected_indices(kind, args, n):
     return None     # sample: weaker oracle
 
 
-def random_channels(rng, names, x_name):
+def random_channels(rng, names, x_name, all_names=()):
     """names: all channel names of the log pass in order (X first).  -> requested list (possibly empty = all)."""
     r = rng.random()
     others = [nm for nm in names if nm != x_name]
@@ -90,8 +90,20 @@ def random_channels(rng, names, x_name):
     if r < 0.75:
         return [x_name] + rng.sample(others, rng.randrange(1, len(others) + 1))
     if r < 0.9:
-        return rng.sample(others, rng.randrange(1, len(others) + 1)) + ['NOSUCH', 'ZZ9']
-    return ['NOSUCH']
+        return rng.sample(others, rng.randrange(1, len(others) + 1)) + _absent_names(list(names) + list(all_names))
+    return _absent_names(list(names) + list(all_names))[:1]
+
+
+def _absent_names(names):
+    """Two names that no channel of the file has, under any padding (generated 4-character names may spell anything)."""
+    have = {(nm.decode('latin-1') if isinstance(nm, bytes) else str(nm)).strip().upper() for nm in names}
+    out = []
+    for cand in ('NOSUCH', 'ZZ9', 'ZZ8', 'NOSUCH2', 'ABSENT', 'ZZ7'):
+        if cand not in have:
+            out.append(cand)
+        if len(out) == 2:
+            break
+    return out
 
 
 # ---------------------------------------------------------------------------------------------- LAS oracle
@@ -399,7 +411,7 @@ def run_rp66v1(ctx, p, audit):
                 kind, args = 'slice', (None, None, None)
             lfi0, ft0 = rng.choice(passes)
             names0 = [c.ident for c in ft0.channels]
-            chans = random_channels(rng, names0, names0[0])
+            chans = random_channels(rng, names0, names0[0], [c.ident for _, ft in passes for c in ft.channels])
             method = rng.choice(['first', 'first', 'mean', 'median', 'min', 'max'])
             width = rng.choice([8, 12, 16, 16, 20, 24])
             ffmt = rng.choice(FLOAT_FORMATS)
@@ -497,7 +509,7 @@ def run_bit(ctx, p, audit):
             else:
                 kind, args = 'slice', (None, None, None)
             names0 = ['X   '] + pm0.names_str
-            chans = random_channels(rng, names0, 'X   ')
+            chans = random_channels(rng, names0, 'X   ', [nm for pm in passes for nm in pm.names_str])
             width = rng.choice([12, 16, 16, 20, 24])
             ffmt = rng.choice(FLOAT_FORMATS[1:])
             out_dir = os.path.join(tmp, 'o%d_%d' % (si, k))
@@ -591,7 +603,8 @@ def run_lis(ctx, p, audit):
             else:
                 kind, args = 'slice', (None, None, None)
             mn0 = [ch.mnem.decode('ascii') for ch in lp0.channels]
-            chans = random_channels(rng, (['X   '] if lp0.indirect else []) + mn0, 'X   ' if lp0.indirect else mn0[0])
+            chans = random_channels(rng, (['X   '] if lp0.indirect else []) + mn0, 'X   ' if lp0.indirect else mn0[0],
+                                    [ch.mnem.decode('ascii') for lp in passes for ch in lp.channels])
             method = rng.choice(['first', 'first', 'mean', 'max'])
             width = rng.choice([16, 16, 20, 24])
             ffmt = rng.choice(['.3f', '.3f', '.6f'])
